@@ -1,5 +1,7 @@
 import UsualProofs.C15.Runs
 import UsualProofs.C15.Examples
+import UsualProofs.C15.MultiList
+import UsualProofs.C15.HTextra
 /-! Property theorems for C15 — hash table, binary heap, list_sort, List/StatList, SHList
     match their abstract models.
 
@@ -57,6 +59,26 @@ theorem sort_links_consistent (le : Nat → Nat → Bool) (s : DL) (l : Nat) (xs
 
 example : Usual.C15.DList.toList (Usual.C15.DList.listSort (leKey exKey) exDL 1 9) 1 9 = [6, 8, 5, 7] ∧
     Usual.C15.DList.toListRev (Usual.C15.DList.listSort (leKey exKey) exDL 1 9) 1 9 = [7, 5, 8, 6] := by decide +kernel
+
+open Usual.C15.DList UsualProofs.C15.DSortP in
+/-- MERGE AT POINTER LEVEL: `merge()` of usual/list.c, run on two disjoint NULL-terminated runs
+    `P` (from `p`) and `Q` (from `q`) of the node store, returns the head of a NULL-terminated run
+    holding exactly the sequence-level `merge le P Q`, writes `next` fields of nodes of `P ++ Q`
+    only, and never touches a `prev` field.  (`sort_links_consistent` is assembled from this, the
+    carry / collapse loops over the run stack and the closing prev-restoring loop — all
+    transcribed from the C code over the store.) -/
+theorem sort_merge_pointer_level (le : Nat → Nat → Bool) (fuel : Nat) (s : DL) (p q : Nat) (P Q : List Nat)
+    (hP : ChnTo s.next.get p P 0) (hQ : ChnTo s.next.get q Q 0) (hnd : (P ++ Q).Nodup) (h0 : 0 ∉ P ++ Q)
+    (hf : P.length + Q.length < fuel) :
+    ChnTo (ptrMerge le fuel s p q).1.next.get (ptrMerge le fuel s p q).2 (ListSort.merge le P Q) 0 ∧
+    (∀ z, z ∉ P ++ Q → (ptrMerge le fuel s p q).1.next.get z = s.next.get z) ∧
+    (ptrMerge le fuel s p q).1.prev = s.prev :=
+  ptrMerge_spec le fuel s p q P Q hP hQ hnd h0 hf
+
+/-- runs 5 → 7 → NULL (keys 3,3) and 6 → 8 → NULL (keys 1,1) -/
+example : (Usual.C15.DList.ptrMerge (leKey exKey) 9 exRuns 5 6).2 = 6 ∧
+    Usual.C15.DList.walkNext (Usual.C15.DList.ptrMerge (leKey exKey) 9 exRuns 5 6).1 0 9 6 = [6, 8, 5, 7] := by
+  decide +kernel
 
 end SortSec
 
@@ -169,6 +191,21 @@ theorem heap_reserve_spec (h : Heap) (extra : Nat) :
   exact ⟨by unfold toList; rw [this.1, this.2.1], reserve_room h extra⟩
 
 example : (reserve (heapRun ltNat Heap.init exOps) 100).allocated = 104 := by decide +kernel
+
+/-- ALLOCATION FAILURE: when the allocator refuses (`cx_realloc` returns NULL), `heap_reserve`
+    and `heap_push` leave the heap exactly as it was and return false — and they only fail if they
+    needed the allocator at all (no room for `extra` more / array full); with a willing
+    allocator they are the functions of the theorems above -/
+theorem heap_alloc_failure_unchanged (better : Nat → Nat → Bool) (h : Heap) (extra x : Nat) :
+    reserveO false h extra = (h, !reserveAllocs h extra) ∧
+    pushO false better h x = (if h.used ≥ h.allocated then (h, false) else (push better h x, true)) ∧
+    reserveO true h extra = (reserve h extra, true) ∧ pushO true better h x = (push better h x, true) :=
+  ⟨reserveO_fail h extra, pushO_fail better h x, reserveO_ok h extra, pushO_ok better h x⟩
+
+example : pushO false ltNat Heap.init 7 = (Heap.init, false) := by
+  rw [(heap_alloc_failure_unchanged ltNat Heap.init 0 7).2.1]; rfl
+example : (reserveO false (heapRun ltNat Heap.init exOps) 100).2 = false ∧
+    (reserveO false (heapRun ltNat Heap.init exOps) 3).2 = true := by decide +kernel
 
 end HeapSec
 
@@ -311,6 +348,56 @@ theorem ht_copy_spec (k' : Nat) (hk : 1 ≤ k') (h : List Table) :
 example : (htRun eqCmp [create (2 ^ 2)] (exHt ++ [.copy 1])).map (fun h => (stats h, contents h))
     = some ((4, 4), [(0, 1), (8, 5), (12, 4), (16, 6)]) := by decide +kernel
 
+/-- NULL `arg` NEVER MATCHES: `hashtab_lookup(h, key, true, NULL)` always hands out a fresh slot —
+    the new pair is added even if equal pairs are stored already (`hashtab_copy` relies on it) -/
+theorem ht_null_arg_always_fresh (cmp : Nat → Nat → Bool) (k : Nat) (h : List Table) (hi : HtInv k h)
+    (key val : Nat) (hv : val ≠ 0) :
+    (HashTab.insert cmp key val none h).2 = .new ∧
+    (contents (HashTab.insert cmp key val none h).1).Perm ((key, val) :: contents h) ∧
+    lookup cmp key none h 0 = .none :=
+  ⟨(insert_null_arg (cycPow k) (two_le_pow k hi.1) cmp key val hv h hi.2.1 hi.2.2).1,
+   (insert_null_arg (cycPow k) (two_le_pow k hi.1) cmp key val hv h hi.2.1 hi.2.2).2, by
+    obtain ⟨l1, l2, _⟩ := lookup_spec (cycPow k) cmp key none h 0 hi.2.2
+    cases hl : lookup cmp key none h 0 with
+    | none => rfl
+    | spin => exact absurd hl l1
+    | found ti p =>
+      obtain ⟨t, _, _, _, _, _, a6, _⟩ := l2 ti p hl
+      cases a6⟩
+
+example : (htRun eqCmp [create (2 ^ 2)] [.ins 3 9 none, .ins 3 9 none, .ins 3 9 none]).map contents
+    = some [(3, 9), (3, 9), (3, 9)] := by decide +kernel
+
+/-- VALUE SLOTS ARE STABLE UNDER INSERTS: a pointer to a stored value (table number, slot number)
+    obtained earlier still designates the same key and value after any later insert — also when
+    that insert chains a new table (growth appends at the end of the chain, it never moves a pair) -/
+theorem ht_insert_keeps_value_slots (cmp : Nat → Nat → Bool) (key val : Nat) (arg : Option Nat)
+    (h : List Table) (ti : Nat) (t : Table) (p : Nat) (ht : h[ti]? = some t) (hocc : t.vals.get p ≠ 0) :
+    (∃ t', (HashTab.insert cmp key val arg h).1[ti]? = some t' ∧ t'.size = t.size ∧
+      t'.keys.get p = t.keys.get p ∧ t'.vals.get p = t.vals.get p) ∧
+    h.length ≤ (HashTab.insert cmp key val arg h).1.length :=
+  ⟨insert_keeps_slots cmp key val arg h ti t p ht hocc, (insert_length cmp key val arg h).1⟩
+
+example : ∀ h', htRun eqCmp [create (2 ^ 2)] [.ins 0 1 none, .ins 4 2 none, .ins 8 3 none] = some h' →
+    ∀ t, h'[0]? = some t → t.vals.get 1 = 2 →
+    ∃ t', (HashTab.insert eqCmp 12 4 none h').1[0]? = some t' ∧ t'.keys.get 1 = t.keys.get 1 ∧ t'.vals.get 1 = 2 := by
+  intro h' _ t ht hv
+  obtain ⟨⟨t', a, _, c, d⟩, _⟩ := ht_insert_keeps_value_slots eqCmp 12 4 none h' 0 t 1 ht (by rw [hv]; decide)
+  exact ⟨t', a, c, by rw [d, hv]⟩
+
+/-- DELETE IS LOCAL: only the table holding the deleted pair is rewritten (its compaction may
+    move pairs inside that table); every other table of the chain is the same object at the same
+    position, and a delete that matches nothing changes nothing -/
+theorem ht_delete_is_local (cmp : Nat → Nat → Bool) (key : Nat) (arg : Option Nat) (h h' : List Table)
+    (hd : HashTab.delete cmp key arg h = some h') :
+    (lookup cmp key arg h 0 = .none → h' = h) ∧
+    (∀ ti p, lookup cmp key arg h 0 = .found ti p → ∀ tj, tj ≠ ti → h'[tj]? = h[tj]?) := by
+  obtain ⟨a, b⟩ := delete_local cmp key arg h h' 0 hd
+  exact ⟨a, fun ti p e tj hne => b ti p e tj (by omega)⟩
+
+example : (htRun eqCmp [create (2 ^ 2)] [.ins 0 1 none, .ins 4 2 none, .ins 8 3 none, .ins 12 4 none, .del 12 (some 4)]).map
+    (fun h => (h.map tableContents)) = some [[(0, 1), (4, 2), (8, 3)], []] := by decide +kernel
+
 end HashTabSec
 
 /-! ## List / StatList (usual/list.h, usual/statlist.h) -/
@@ -405,6 +492,34 @@ theorem list_del_frame (s : DL) (l : Nat) (A B : List Nat) (x : Nat) (h : IsL s 
 
 example : toList (listDel exDL2 6) 2 9 = [10, 11] ∧ toList (listDel exDL2 6) 1 9 = [5, 7, 8] ∧
     toList (listDel exDL2 6) 6 9 = [] := by decide +kernel
+
+open UsualProofs.C15.Multi in
+/-- SEVERAL LISTS IN ONE STORE: for any set `H` of List / StatList heads and ANY interleaving of
+    prepend / append / remove / pop / sort / put_after / put_before calls on them that respects
+    the API contract, every list holds exactly the sequence its own deque specification computes
+    (forward traversal, backward traversal reversed, `cur_count` = length) — operations on one
+    list never disturb another -/
+theorem lists_refine_deques (le : Nat → Nat → Bool) (fuel : Nat) (H : List Nat) (hnd : H.Nodup) (h0 : 0 ∉ H)
+    (ops : List MOp) (hv : MValid le H fuel (fun _ => []) ops) (h : Nat) (hh : h ∈ H)
+    (hf : (mspecRun le (fun _ => []) ops h).length ≤ fuel) :
+    toList (mrun le fuel (minit H) ops).s h fuel = mspecRun le (fun _ => []) ops h ∧
+    toListRev (mrun le fuel (minit H) ops).s h fuel = (mspecRun le (fun _ => []) ops h).reverse ∧
+    (mrun le fuel (minit H) ops).cnt h = (mspecRun le (fun _ => []) ops h).length := by
+  have hr := mrun_rep le fuel H ops (minit H) (fun _ => []) (minit_rep H hnd h0) hv
+  have := toList_eq (hr.ring h hh) fuel hf
+  exact ⟨this.1, this.2, hr.count h hh⟩
+
+example : toList (Multi.mrun (leKey exKey) 9 (Multi.minit [1, 2, 3]) exMulti).s 1 9 = [8, 5] ∧
+    toList (Multi.mrun (leKey exKey) 9 (Multi.minit [1, 2, 3]) exMulti).s 2 9 = [6, 9, 7] ∧
+    (Multi.mrun (leKey exKey) 9 (Multi.minit [1, 2, 3]) exMulti).cnt 2 = 3 := by
+  have e1 : Multi.mspecRun (leKey exKey) (fun _ => []) exMulti 1 = [8, 5] := by decide +kernel
+  have e2 : Multi.mspecRun (leKey exKey) (fun _ => []) exMulti 2 = [6, 9, 7] := by decide +kernel
+  have h1 := lists_refine_deques (leKey exKey) 9 [1, 2, 3] (by decide) (by decide) exMulti exMulti_valid 1 (by decide)
+    (by rw [e1]; decide)
+  have h2 := lists_refine_deques (leKey exKey) 9 [1, 2, 3] (by decide) (by decide) exMulti exMulti_valid 2 (by decide)
+    (by rw [e2]; decide)
+  rw [e1] at h1; rw [e2] at h2
+  exact ⟨h1.1, h2.1, h2.2.2⟩
 
 end ListSec
 
